@@ -40,11 +40,37 @@ func (e *Engine) assume(p *Path, c *Term) {
 
 // drawByte: a symbolic byte of the alphabet (concrete replay: same mapping as the native shim)
 func (e *Engine) drawByte(p *Path, alpha StrV) *Term {
-	v := e.freshVar(p, 8, "byte")
 	if !e.isConc {
+		n := e.concLen(alpha.len, "alphabet")
+		if n >= 1 && n <= 32 {
+			// a byte of a small alphabet is a selector: value = ite(sel=0, c0, ite(sel=1, c1, ...)), so that
+			// comparisons and table look-ups on it fold to conditions on the selector
+			letters := make([]uint64, n)
+			for a := 0; a < n; a++ {
+				ch := asTerm(e.loadStrByte(p.st, alpha, e.Const(64, uint64(a))))
+				if !ch.IsConst() {
+					unsup("symbolic alphabet")
+				}
+				letters[a] = ch.val
+			}
+			sel := e.freshVar(p, 8, "byte")
+			k := p.st.nDraw - 1
+			if old, ok := e.varAlpha[k]; ok && len(old) != n {
+				unsup("input %d drawn from different alphabets on different paths", k)
+			}
+			e.varAlpha[k] = letters
+			e.assume(p, e.Cmp(OpUlt, sel, e.Const(8, uint64(n))))
+			val := e.Const(8, letters[n-1])
+			for a := n - 2; a >= 0; a-- {
+				val = e.Ite(e.Eq(sel, e.Const(8, uint64(a))), e.Const(8, letters[a]), val)
+			}
+			return val
+		}
+		v := e.freshVar(p, 8, "byte")
 		e.alphabetConstraint(p, v, alpha)
 		return v
 	}
+	v := e.freshVar(p, 8, "byte")
 	n := e.concLen(alpha.len, "alphabet")
 	if n == 0 {
 		return v
